@@ -355,6 +355,7 @@ type assembled struct {
 }
 
 func (c *checker) assemble(atoms []*atom) assembled {
+	atoms = withNeeds(atoms)
 	as := assembled{idl: renderIDL("main", atoms)}
 	r := generate(as.idl)
 	if r.failure != "" {
@@ -593,11 +594,14 @@ func main() {
 	}
 	// ---- 2. assemble the compiling atoms into packages
 	const perPkg = 110
-	var special, normal []*atom
+	var special, normal, objects []*atom
 	for _, a := range passing {
-		if a.itfName != "" {
+		switch {
+		case a.object:
+			objects = append(objects, a)
+		case a.itfName != "":
 			special = append(special, a)
-		} else {
+		default:
 			normal = append(normal, a)
 		}
 	}
@@ -611,6 +615,10 @@ func main() {
 	}
 	if len(special) > 0 {
 		packs = append(packs, special)
+	}
+	if len(objects) > 0 {
+		// the object family: a package of its own (its interfaces refer to each other)
+		packs = append(packs, objects)
 	}
 	type built struct {
 		atoms []*atom
